@@ -113,9 +113,10 @@ func (b *Writer) Available() int { return len(b.buf) - b.n }
 func (b *Writer) Write(p []byte) (nn int, err error) {
 	for len(p) > b.Available() && b.err == nil {
 		var n int
-		if b.n == 0 {
+		if b.n == 0 && !b.alignFlush {
 			// Large write, empty buffer.
 			// Write directly from p to avoid copy.
+			// Not for aligned flushes: those files take whole aligned blocks only, which the caller's slice is not.
 			n, b.err = b.wr.Write(p)
 		} else {
 			n = copy(b.buf[b.n:], p)
